@@ -1173,6 +1173,77 @@ func (r *vpRunner) genAndRun(g *vpRng, maxOps int, prop string) {
 	r.finish()
 }
 
+// enumerate runs every sequence of `depth` operations drawn from a small, state-dependent alphabet
+// (only operations that refer to existing connections / pickers / open calls are offered).
+func (r *vpRunner) enumerate(h vpOp, depth int, count *int) {
+	prelude := []vpOp{{kind: "R", a: []int64{1, 2}}, {kind: "C", a: []int64{0, 2}}}
+	var prefix []vpOp
+	alphabet := func() []vpOp {
+		var alts []vpOp
+		nsc := len(r.cc.scs)
+		for id := 0; id < nsc && id < 3; id++ {
+			for _, st := range []int64{2, 3} {
+				alts = append(alts, vpOp{kind: "C", a: []int64{int64(id), st}})
+			}
+		}
+		if nsc > 0 {
+			alts = append(alts, vpOp{kind: "C", a: []int64{int64(nsc - 1), 4}}, vpOp{kind: "C", a: []int64{int64(nsc - 1), 1}})
+		}
+		if np := len(r.cc.pickers); np > 0 {
+			lp := int64(np - 1)
+			alts = append(alts,
+				vpOp{kind: "P", a: []int64{lp, 0, 1, vpGetNow() + 1000000, 0}},
+				vpOp{kind: "P", a: []int64{lp, 1, 1, -1, 0}},
+				vpOp{kind: "P", a: []int64{lp, 2, 1, -1, 0}, keys: []int{1}},
+				vpOp{kind: "P", a: []int64{lp, 3, 1, -1, 0}, keys: []int{1}})
+			if np > 1 {
+				alts = append(alts, vpOp{kind: "P", a: []int64{0, 2, 1, -1, 0}, keys: []int{1}})
+			}
+		}
+		for _, p := range r.picks {
+			if p.placed && !p.fin {
+				alts = append(alts, vpOp{kind: "D", a: []int64{int64(p.id), 0}, keys: []int{1}},
+					vpOp{kind: "D", a: []int64{int64(p.id), 2}})
+				break
+			}
+		}
+		alts = append(alts, vpOp{kind: "V", a: []int64{2000001}}, vpOp{kind: "R", a: []int64{2, 2}})
+		return alts
+	}
+	replay := func(quiet bool) {
+		w := r.w
+		if quiet {
+			r.w = bufio.NewWriter(ioutil.Discard)
+		}
+		r.start(h)
+		for _, o := range prelude {
+			r.apply(o)
+		}
+		for _, o := range prefix {
+			r.apply(o)
+		}
+		r.w = w
+	}
+	var rec func(d int)
+	rec = func(d int) {
+		if d == 0 {
+			replay(false)
+			r.finish()
+			*count++
+			return
+		}
+		replay(true)
+		alts := alphabet()
+		r.finish()
+		for _, a := range alts {
+			prefix = append(prefix, a)
+			rec(d - 1)
+			prefix = prefix[:len(prefix)-1]
+		}
+	}
+	rec(depth)
+}
+
 // ---------------------------------------------------------------- parsing
 func vpParseHistories(path string) ([][]vpOp, error) {
 	data, err := ioutil.ReadFile(path)
@@ -1268,6 +1339,19 @@ func TestVerifPool(t *testing.T) {
 	n := vpEnvInt("VERIF_N", 0)
 	maxOps := vpEnvInt("VERIF_MAXOPS", 40)
 	prop := os.Getenv("VERIF_PROP")
+	// small-scope exhaustive enumeration (thorough tier): every operation sequence of the given
+	// depth over a small alphabet, after a fixed prelude, for a few configurations
+	if d := vpEnvInt("VERIF_ENUM_DEPTH", 0); d > 0 {
+		count := 0
+		for _, cfg := range [][]int64{
+			{2, 3, 1, 1, 1, 1, 0, 0}, // min2 max3 wm1 fallback on, detection 1ms/1 call
+			{1, 2, 1, 0, 0, 0, 1, 0}, // min1 max2 wm1 round-robin
+			{2, 2, 100, 1, 1, 1, 0, 0},
+		} {
+			r.enumerate(vpOp{kind: "H", a: cfg}, d, &count)
+		}
+		fmt.Fprintf(os.Stderr, "enumerated %d histories\n", count)
+	}
 	for i := 0; i < n; i++ {
 		r.genAndRun(g, maxOps, prop)
 		if r.nstuck >= 15 {
